@@ -137,6 +137,13 @@ def hand_written():
         [t([["r", 0]], entry=[["r", 1]], par=True), t([["m", 1]]), t([["r", 1]], par=True)],
         [t([["m", 1]]), t([["r", 0]], entry=[["om", 1]], par=True)],
         [t([["r", 0]], entry=[["or", 1]], par=True), t([["r", 2]]), t([["m", 1]], par=True)],
+        # a ParSystem in the middle of a stage (its own Stager impl): what the stage remembers of the tasks BEFORE it —
+        # resources and components — must survive it, and its own claims must be remembered for the tasks after it
+        [t([["m", 0]], res=[[True, 0]]), t([["m", 1]], par=True), t([["m", 2]], res=[[False, 0]])],
+        [t([["m", 0]], res=[[True, 1]]), t([["r", 1]], par=True), t([["m", 2]], res=[[True, 1]])],
+        [t([["m", 0]]), t([["m", 1]], par=True), t([["r", 0]])],
+        [t([["m", 0]], par=True), t([["m", 1]]), t([["m", 0]])],
+        [t([["m", 0]], par=True), t([["r", 0]])],
         # an identifier among the entry views reaches no component: it must not keep a run-time-disjoint task waiting
         [t([["m", 0]], ["has", 1], entry=[["id", -1]]), t([["m", 0]], ["not", ["has", 1]])],
         [t([["m", 0]], ["has", 1], entry=[["id", -1], ["r", 2]]), t([["m", 0]], ["not", ["has", 1]]), t([["r", 3]])],
